@@ -323,6 +323,12 @@ def gen_objects(run, n):
     return objs
 
 
+def sort_attrs(t):
+    if 'x' in t:
+        return t
+    return {'e': t['e'], 'a': sorted(t['a']), 'c': [sort_attrs(k) for k in t['c']]}
+
+
 def obj_case(o):
     return {'type': type(o).__name__, 'repr': repr(o)[:1500]}
 
@@ -370,6 +376,15 @@ def run(run):
             meta.append(('dec', o, real))
         except Exception as e:
             run.count('sax:rejected:' + type(e).__name__)
+        # element-syntax layer: the proved parser XmlParse.par against real expat on the real document
+        doc = ('<?xml version="1.0" encoding="utf-8" ?>\n' if len(reqs) % 2 else '') + xml
+        try:
+            tt = xml_to_tupletree_sax(doc, 'C01')
+            realtree = sort_attrs(cimproto.tt_to_json(tt))
+        except Exception:  # noqa
+            realtree = None
+        reqs.append({'op': 'par', 's': cimproto.cps(doc)})
+        meta.append(('par', o, realtree))
     # text layer: strings from the generator + systematic single/double characters
     g = cimgen.Gen(run.rng, allow_cr=True)
     texts = [g.string(30) for _ in range(400 if not run.thorough else 5000)]
@@ -399,6 +414,15 @@ def run(run):
                 d = diff(real, ans)
                 run.disagree(obj_case(o), {'diff_at': d[0] if d else None, 'model': str(d[2])[:300] if d else None},
                              {'real': str(d[1])[:300] if d else None}, 'decoder: decode(tupletree) vs TupleParser.parse_any')
+        elif kind == 'par':
+            run.evaluations += 1
+            t = ans.get('tree')
+            t = None if t is None else sort_attrs(t)
+            run.count('par:' + ('ok' if real is not None else 'rejected'))
+            if t != real:
+                d = diff(real, t) if (t is not None and real is not None) else ('', real is not None, t is not None)
+                run.disagree(obj_case(o), {'diff_at': d[0], 'model': str(d[2])[:200]}, {'real': str(d[1])[:200]},
+                             'element syntax: XmlParse.par vs xml_to_tupletree_sax')
         else:
             run.evaluations += 1
             a = {'text': ans.get('text'), 'attr': ans.get('attr')}
